@@ -7,6 +7,19 @@ import gzip, io, json, sys, warnings
 warnings.simplefilter('ignore')
 
 
+
+def accepts_gzip(header):
+    """RFC 7231 5.3.4: gzip is acceptable iff its quality (or, when it is not listed, that of '*') is > 0"""
+    if not header:
+        return False
+    from werkzeug.http import parse_accept_header
+    acc = parse_accept_header(header)
+    listed = dict((k.lower(), q) for k, q in acc)
+    if 'gzip' in listed:
+        return listed['gzip'] > 0
+    return listed.get('*', 0) > 0
+
+
 def make_mw(name):
     from clastic.middleware import (GzipMiddleware, HTTPCacheMiddleware, SimpleProfileMiddleware,
                                     SimpleContextProcessor, GetParamMiddleware)
@@ -97,7 +110,7 @@ def run(case):
             problems.append('%s %s: body differs (%d vs %d bytes)' % (req.get('method', 'GET'), req['path'], len(b1), len(b0)))
         if x1.get('gzip') and req.get('method', 'GET') != 'HEAD' and (not x1['content_length_ok'] or 'Accept-Encoding' not in (x1.get('vary') or '')):
             problems.append('%s: gzip response with wrong Content-Length or Vary' % req['path'])
-        if x1.get('gzip') and 'gzip' not in (req.get('accept_encoding') or '').lower():
+        if x1.get('gzip') and not accepts_gzip(req.get('accept_encoding')):
             problems.append('%s: gzip although the client did not accept it' % req['path'])
     if case['mw'] == 'stats' and not problems:
         # every request is counted once, under its status (per pattern)
@@ -120,6 +133,26 @@ def run(case):
                 got.setdefault(rt.pattern, {})[st] = resv.total_count
         if got != want:
             problems.append('stats counts %r, expected %r' % (got, want))
+        # what the stats endpoint REPORTS is the number of requests, also once the bounded sample store is
+        # smaller than that number (sample stores shrunk to 2 entries, then more traffic)
+        from clastic.middleware.stats import get_stats_dict
+        for by_status in mw.route_hits.values():
+            for resv in by_status.values():
+                resv.resize(2)
+        extra = 5
+        for _ in range(extra):
+            send(app_mw, {'path': '/ok'})
+        rep = get_stats_dict(app_mw)['route_stats']
+        for pat, by_status in want.items():
+            for key, n in by_status.items():
+                exp = n + (extra if (pat == '/ok' and key == '200') else 0)
+                shown = rep.get(pat, {}).get(key, {}).get('count')
+                if shown != exp:
+                    problems.append('stats report shows count %r for %s %s, %d requests were served' % (shown, pat, key, exp))
+        for by_status in mw.route_hits.values():
+            for resv in by_status.values():
+                if len(list(resv)) > 2:
+                    problems.append('sample store holds %d entries after resize(2)' % len(list(resv)))
     return {'fails': bool(problems), 'why': '; '.join(problems[:4])}
 
 
